@@ -6,7 +6,7 @@ ap = argparse.ArgumentParser(); ap.add_argument("dir"); ap.add_argument("--check
 a = ap.parse_args()
 d = os.path.abspath(a.dir)
 meta = json.load(open(os.path.join(d, "meta.json")))
-BASE = meta.get("base_commit", "223586f")
+BASE = os.environ.get("SEED_BASE", "HEAD")
 wt = f"/tmp/harm_eval_{os.path.basename(d)}_{os.getpid()}"
 sh = lambda c, **k: subprocess.run(c, shell=True, capture_output=True, text=True, **k)
 res = {"dir": d, "time": time.strftime("%F %T"), "base_commit": BASE, "checks": {}}
